@@ -432,8 +432,7 @@ func RunC13(tier string) {
 	smp := &evid.Samples{N: 10}
 	var total seqx.Stats
 	spec := c13Spec(tier, "buffering")
-	st := seqx.Explore(run, spec, tier, smp)
-	seqx.Merge(run, "buffering", st, &total)
+	st := seqx.ExploreOrders(run, spec, tier, smp, &total, true)
 	seqx.Finish(run, total, smp, fmt.Sprintf("two sessions on two peers (PDR 1,2 -> FAR 1; in one session PDR 1 has a QER with QFI 37 and PDR 2 none, the other has no QER), BUFFER notifications for live / never-existing / ended sessions with and without NOCP, bursts of 513 (thorough 600) packets across the 512 capacity, FAR apply-action transitions among BUFF, BUFF|NOCP, FORW, DROP, FORW|NOCP, PDR removal, deletion and SEID re-use; all histories to depth %d (completed %d) over the full stack", spec.MaxDepth, st.DepthDone))
 	run.Assumption("the simulated kernel stands for gtp5g: it answers GET_FAR with the FAR's current action and related PDRs, GET_PDR with the QER ids, GET_QER with the QFI")
 	run.Assumption("inside Update FAR the FAR ID precedes Apply Action (the order every go-pfcp based SMF emits)")
